@@ -501,6 +501,32 @@ func (bb *TwoDBoundingBox) UnmarshalJSON(data []byte) error {
 // A 2D Point in the CRS indicated elsewhere
 type TwoDPoint [2]float64
 
+// UnmarshalJSON makes sure a 2D point is given as exactly two numbers, see UnmarshalJSONFromMap
+func (p *TwoDPoint) UnmarshalJSON(data []byte) error {
+	var coords interface{}
+	if err := json.Unmarshal(data, &coords); err != nil {
+		return err
+	}
+	return p.UnmarshalJSONFromMap(coords)
+}
+
+// UnmarshalJSONFromMap makes sure a 2D point is given as exactly two numbers
+// (instead of leaving an array of another length to reflection, which panics on more and zero-fills on fewer)
+func (p *TwoDPoint) UnmarshalJSONFromMap(data interface{}) error {
+	coords, ok := data.([]interface{})
+	if !ok || len(coords) != len(p) {
+		return fmt.Errorf(`a 2D point should be an array of %d numbers, got: %v`, len(p), data)
+	}
+	for i := range coords {
+		coord, ok := coords[i].(float64)
+		if !ok {
+			return fmt.Errorf(`a 2D point should be an array of %d numbers, got: %v`, len(p), data)
+		}
+		p[i] = coord
+	}
+	return nil
+}
+
 func IsLatLon(crs CRS) (bool, error) {
 	authority := crs.Authority()
 	version := crs.Version()
